@@ -365,6 +365,7 @@ class Interp:
             v = self.eval(st.value, env, frame, cond, stmt_env=env)
             for t in st.targets:
                 self.assign(t, v, env, frame, cond)
+            self._record_alias(st, env, frame, cond)
             return [Outcome('fall', env, None, cond)]
         if isinstance(st, ast.AnnAssign):
             env = dict(env)
@@ -545,6 +546,16 @@ class Interp:
                 x = fa.env.get(k, ('unk', 'unbound:' + k))
                 y = fb.env.get(k, ('unk', 'unbound:' + k))
                 merged[k] = phi_node(c, x, y)
+            if self.ALIAS in merged:
+                # `if c: x = a  else: x = b` makes x a conditional alias
+                ra, rb = self._alias_records(fa.env), self._alias_records(fb.env)
+                recs = tuple(r for r in ra if r in rb)
+                for r1 in ra:
+                    for r2 in rb:
+                        if r1 not in rb and r2 not in ra and r1[0] == r2[0] and \
+                                r1[2] == '' and r2[2] == '' and r1[1] != r2[1]:
+                            recs += ((r1[0], r1[1], r2[1], c),)
+                merged[self.ALIAS] = intern(('aliasrec', recs))
             outs.append(Outcome('fall', merged, None, cond))
         elif len(falls) == 1:
             # the other branch left the function: no phi needed, but the
@@ -733,6 +744,28 @@ class Interp:
                         root = root.value
                     if isinstance(root, ast.Name) and root.id not in assigned:
                         assigned.append(root.id)
+        # a store through a name bound in the body to other local names
+        # (`x = a`, `x = a if c else b`) is a store into those objects
+        sources = {}
+        for s in body:
+            for n in ast.walk(s):
+                if isinstance(n, ast.Assign) and len(n.targets) == 1 and \
+                        isinstance(n.targets[0], ast.Name):
+                    v = n.value
+                    vs = [v] if isinstance(v, ast.Name) else (
+                        [v.body, v.orelse] if isinstance(v, ast.IfExp) else [])
+                    if vs and all(isinstance(y, ast.Name) for y in vs):
+                        sources.setdefault(n.targets[0].id, []).extend(y.id for y in vs)
+        work = list(assigned)
+        seen = set(work)
+        while work:
+            n = work.pop()
+            for y in sources.get(n, ()):
+                if y not in seen:
+                    seen.add(y)
+                    work.append(y)
+                    if y in env and y not in assigned:
+                        assigned.append(y)
         benv = dict(env)
         for n in assigned:
             if n in env:
@@ -780,6 +813,7 @@ class Interp:
         v = intern(v)
         if isinstance(target, ast.Name):
             env[target.id] = v
+            self._drop_alias(target.id, env)
             return
         if isinstance(target, (ast.Tuple, ast.List)):
             n = len(target.elts)
@@ -822,6 +856,7 @@ class Interp:
     def _store_back(self, node, newval, env, frame, cond):
         """After base.x = v, rebind the root name to the updated object."""
         if isinstance(node, ast.Name):
+            self._store_through_aliases(node.id, newval, env)
             env[node.id] = newval
         elif isinstance(node, ast.Attribute):
             b = self.eval(self._load(node.value), env, frame, cond)
@@ -833,6 +868,68 @@ class Interp:
             self._store_back(node.value, intern(('upd', b, 'item', key, newval)),
                              env, frame, cond)
         # calls etc: value is a temporary, nothing to rebind
+
+    # ------------------------------------------------------------------
+    # local aliases: `x = a` and `x = a if c else b` (a, b local names) make x
+    # another name of the same object; a store through one name is a store
+    # into the object the other names denote.  The record lives in the path's
+    # environment; it is used only while the values it relates are still the
+    # terms they were when it was made (any rebinding or merge drops it).
+    ALIAS = '$alias'
+
+    def _alias_records(self, env):
+        r = env.get(self.ALIAS)
+        if r is None or r[0] != 'aliasrec':
+            return ()
+        return r[1]
+
+    def _drop_alias(self, name, env):
+        recs = self._alias_records(env)
+        if recs:
+            keep = tuple(r for r in recs if name not in (r[0], r[1], r[2]))
+            if len(keep) != len(recs):
+                env[self.ALIAS] = intern(('aliasrec', keep))
+
+    def _record_alias(self, st, env, frame, cond):
+        if len(st.targets) != 1 or not isinstance(st.targets[0], ast.Name):
+            return
+        x = st.targets[0].id
+        v = st.value
+        rec = None
+        more = ()
+        if isinstance(v, ast.Name) and v.id in env and v.id != x:
+            rec = (x, v.id, '', NONE)
+            # ... and of whatever that name is an alias of
+            more = tuple((x, r[1], r[2], r[3]) for r in self._alias_records(env)
+                         if r[0] == v.id and r[2] != '' and x not in (r[1], r[2]))
+        elif isinstance(v, ast.IfExp) and isinstance(v.body, ast.Name) and \
+                isinstance(v.orelse, ast.Name) and v.body.id in env and \
+                v.orelse.id in env and x not in (v.body.id, v.orelse.id) and \
+                v.body.id != v.orelse.id:
+            c = self.eval(v.test, env, frame, cond)
+            A, B = env[v.body.id], env[v.orelse.id]
+            if env[x] == (A if A == B else intern(('ite', c, A, B))):
+                rec = (x, v.body.id, v.orelse.id, c)
+        if rec is not None:
+            env[self.ALIAS] = intern(('aliasrec', self._alias_records(env) + (rec,) + more))
+
+    def _store_through_aliases(self, name, newval, env):
+        from .logic import resolve
+        for x, a, b, c in self._alias_records(env):
+            if b == '':
+                # x and a are one object
+                if name in (x, a) and env.get(x) == env.get(a):
+                    env[a if name == x else x] = newval
+                continue
+            if name != x or a not in env or b not in env:
+                continue
+            yes = lambda t, c=c: True if t == c else None
+            no = lambda t, c=c: False if t == c else None
+            if resolve(env[x], yes) != resolve(env[a], yes) or \
+                    resolve(env[x], no) != resolve(env[b], no):
+                continue
+            env[a] = intern(('ite', c, resolve(newval, yes), env[a]))
+            env[b] = intern(('ite', c, env[b], resolve(newval, no)))
 
     # ------------------------------------------------------------------
     # expressions
